@@ -18,6 +18,8 @@ import (
 	"math/big"
 	"os"
 	"path/filepath"
+	"runtime"
+	"runtime/debug"
 	"sort"
 	"strings"
 	"time"
@@ -1010,6 +1012,10 @@ func newChecker(c *fw.Ctx, table string, mine func(int64) bool) *checker {
 }
 
 func run(c *fw.Ctx) {
+	// a booted node keeps ~640 MB of goleveldb write buffers alive (5 databases x 128 MB memdb); with the default
+	// GOGC=100 each of the 16 workers would float up to twice that.  The check itself allocates only short-lived garbage.
+	debug.SetGCPercent(12)
+	runtime.GOMAXPROCS(2) // a worker is one sequential loop; 16 workers x 16 Ps only makes GC hand-offs slow on a busy machine
 	table, mine := "new", c.Mine
 	if c.Thorough() && c.NShards >= 2 {
 		// two fork tables, one boot per process: even shards run the newest table, odd shards the old one; each half
